@@ -28,6 +28,8 @@ MUT = K.Ref('BaseModelMutation')
 ID = K.Packed(K.Str, K.Str)
 INFO = K.Rec(can_process=K.Bool, mutations=K.Seq(MUT))
 VAL = K.Atom('MetaVal')
+FT = K.Atom('FieldType')
+ATTRS = K.Map(K.Str, K.Opt(VAL))
 
 GHOST_INIT = [
     'track = fun(Ref_Mut, lambda c: no_id())',
@@ -112,7 +114,8 @@ def build():
     w.kinds.update({'Ref_Mut': MUT, 'Id': ID, 'Str': K.Str})
     w.cls('BaseModelMutation', {'model_name': K.Str})
     for name, fields in [
-            ('AddField', {'field_name': K.Str}), ('ChangeField', {'field_name': K.Str}),
+            ('AddField', {'field_name': K.Str, 'field_attrs': ATTRS, 'field_type': K.Opt(FT), 'initial': K.Opt(VAL)}),
+            ('ChangeField', {'field_name': K.Str, 'field_attrs': ATTRS, 'field_type': K.Opt(FT), 'initial': K.Opt(VAL)}),
             ('DeleteField', {'field_name': K.Str}),
             ('RenameField', {'old_field_name': K.Str, 'new_field_name': K.Str}),
             ('DeleteModel', {}), ('RenameModel', {'old_model_name': K.Str, 'new_model_name': K.Str}),
@@ -125,10 +128,39 @@ def build():
     w.define('fid', ['m'], '(m.model_name, m.field_name)')
     w.spec_funcs['no_id'] = lambda it: K.opt_none(ID)
     w.spec_funcs['mutset'] = lambda it: K.empty_set(MUT)
+    w.kinds['Ref_Add'] = K.Ref('AddField')
+    w.kinds['Ref_Change'] = K.Ref('ChangeField')
+    # folding a later ChangeField into the earlier mutation: the later statement wins attribute by attribute, a type or
+    # initial value it does not state is kept, nothing else changes
+    for dest_cls in ('AddField', 'ChangeField'):
+        other = 'ChangeField' if dest_cls == 'AddField' else 'AddField'
+        w.contract(
+            'AppMutator._copy_change_attrs', module=APPMUT, serves=['C03', 'C01'],
+            params={'self': K.Ref('AppMutator'), 'source_mutation': K.Ref('ChangeField'), 'dest_mutation': K.Ref(dest_cls)},
+            requires=['source_mutation is not dest_mutation'] if dest_cls == 'ChangeField' else [],
+            raises={},
+            modifies=['%s.field_attrs[dest_mutation]' % dest_cls, '%s.field_type[dest_mutation]' % dest_cls,
+                      '%s.initial[dest_mutation]' % dest_cls],
+            ensures=[
+                'forall(Str, lambda k: (k in dest_mutation.field_attrs) == '
+                '       (k in old(dest_mutation.field_attrs) or k in old(source_mutation.field_attrs)))',
+                'forall(Str, lambda k: implies(k in old(source_mutation.field_attrs), '
+                '       dest_mutation.field_attrs[k] == old(source_mutation.field_attrs[k])))',
+                'forall(Str, lambda k: implies(k in old(dest_mutation.field_attrs) and k not in old(source_mutation.field_attrs), '
+                '       dest_mutation.field_attrs[k] == old(dest_mutation.field_attrs[k])))',
+                'dest_mutation.field_type == (old(source_mutation.field_type) if old(source_mutation.field_type) is not None '
+                '                             else old(dest_mutation.field_type))',
+                'dest_mutation.initial == (old(source_mutation.initial) if old(source_mutation.initial) is not None '
+                '                          else old(dest_mutation.initial))',
+            ],
+            note='verified once per destination class (AddField, ChangeField)')
+        c = w.contracts.pop('AppMutator._copy_change_attrs')
+        c.name = 'AppMutator._copy_change_attrs#' + dest_cls
+        w.contracts['AppMutator._copy_change_attrs#' + dest_cls] = c
     w.stub('AppMutator._copy_change_attrs',
            params={'self': K.Ref('AppMutator'), 'source_mutation': MUT, 'dest_mutation': MUT},
-           note='copies field_attrs / field_type / initial from the later ChangeField to the earlier mutation (writes to '
-                'the definitions: the C03 frame finding); here only WHICH pairs are folded matters')
+           note='call-site view inside the reverse pass: only WHICH pairs are folded matters there; what a fold copies is '
+                'verified by the two _copy_change_attrs contracts')
     w.contract(
         'AppMutator._get_mutation_id', module=APPMUT, serves=['C03'],
         params={'self': K.Ref('AppMutator'), 'mutation': MUT, 'field_name': K.Opt(K.Str)},
@@ -178,7 +210,43 @@ def build():
         note='prefix up to the forward pass; postconditions are stated over the locals at the cut')
     fam = Family('contracts.optfold', w)
     fam.replay['AppMutator._process_mutation_batch'] = replay_batch
+    fam.replay['AppMutator._copy_change_attrs#AddField'] = lambda label, inputs: replay_copy('AddField', label, inputs)
+    fam.replay['AppMutator._copy_change_attrs#ChangeField'] = lambda label, inputs: replay_copy('ChangeField', label, inputs)
     return fam
+
+
+def replay_copy(dest_cls, label, inputs):
+    """Native check of the fold postconditions on concrete mutations shaped like the counter-model: which of
+    field_type / initial each side states, and which attribute names they share."""
+    from django.db import models
+    from django_evolution import mutations as M
+    from django_evolution.mutators import AppMutator
+
+    def stated(side, f):
+        v = (inputs.get(side) or {}).get(f)
+        return v is not None and v != 'None'
+    shapes = [(stated('source_mutation', 'field_type'), stated('dest_mutation', 'field_type'),
+               stated('source_mutation', 'initial'), stated('dest_mutation', 'initial'))]
+    shapes += [(a, b, c, d) for a in (True, False) for b in (True, False) for c in (True, False) for d in (True, False)]
+    for s_type, d_type, s_init, d_init in shapes:
+        src = M.ChangeField('T', 'f', initial=('s-init' if s_init else None),
+                            field_type=(models.TextField if s_type else None), max_length=30, null=True)
+        if dest_cls == 'AddField':
+            dst = M.AddField('T', 'f', models.CharField if d_type else None, initial=('d-init' if d_init else None),
+                             max_length=10, db_index=True)
+        else:
+            dst = M.ChangeField('T', 'f', initial=('d-init' if d_init else None),
+                                field_type=(models.CharField if d_type else None), max_length=10, db_index=True)
+        want_attrs = dict(dst.field_attrs)
+        want_attrs.update(src.field_attrs)
+        want_type = src.field_type if src.field_type is not None else dst.field_type
+        want_init = src.initial if src.initial is not None else dst.initial
+        AppMutator._copy_change_attrs(None, src, dst)
+        got = (dict(dst.field_attrs), dst.field_type, dst.initial)
+        if got != (want_attrs, want_type, want_init):
+            return {'reproduced': True, 'got': repr(got), 'want': repr((want_attrs, want_type, want_init)),
+                    'inputs': {'source states type/initial': [s_type, s_init], 'dest states type/initial': [d_type, d_init]}}
+    return {'reproduced': False, 'note': 'all shapes satisfy the postconditions'}
 
 
 def replay_batch(label, inputs):
